@@ -80,6 +80,10 @@ def check(ctx):
                     owner = prog.fns[owner.parent]
                 found.setdefault((owner.name, m), []).append((fn, b))
     ctx.floor("abort-inventory", "diverging call sites examined", n_div, 40)
+    from . import poscontrol
+    pp = poscontrol.prog()
+    seen = {outer_macro(t) for f in pp.fns.values() if f.name == "abort_point" for b, t in f.calls() if t["target"] is None}
+    ctx.check("unimplemented" in seen, "positive-control", "abort-macro", "the give-up-point detector does not see the planted unimplemented!() in the fixture (%s)" % sorted(x for x in seen if x))
     for (name, m), sites in sorted(found.items()):
         fn, b = sites[0]
         ctx.touch(fn)
